@@ -258,7 +258,7 @@ func handle(line string) (res string) {
 		if len(w) > 0 && w[0] == '"' {
 			return fmt.Sprintf("ok %s%s # valid=%t g=%s", hx(w), diff, json.Valid(w), strings.ReplaceAll(g, " ", ":"))
 		}
-		return fmt.Sprintf("fin %s%s # valid=%t std=%s g=%s gs=%s", hx(w), diff, json.Valid(w), stdNum(w, f64bits),
+		return fmt.Sprintf("ok %s%s # valid=%t std=%s g=%s gs=%s", hx(w), diff, json.Valid(w), stdNum(w, f64bits),
 			strings.ReplaceAll(g, " ", ":"), strings.ReplaceAll(rdOut(quoted(w), helpers.Json2ReadFloat64, f64bits), " ", ":"))
 	case op == "jsonp.wf32" && len(args) == 1:
 		b, ok := bits(args[0], 4)
@@ -271,7 +271,7 @@ func handle(line string) (res string) {
 		if len(w) > 0 && w[0] == '"' {
 			return fmt.Sprintf("ok %s%s # valid=%t g=%s", hx(w), diff, json.Valid(w), strings.ReplaceAll(g, " ", ":"))
 		}
-		return fmt.Sprintf("fin %s%s # valid=%t std=%s g=%s gs=%s", hx(w), diff, json.Valid(w), stdNum(w, f32bits),
+		return fmt.Sprintf("ok %s%s # valid=%t std=%s g=%s gs=%s", hx(w), diff, json.Valid(w), stdNum(w, f32bits),
 			strings.ReplaceAll(g, " ", ":"), strings.ReplaceAll(rdOut(quoted(w), helpers.Json2ReadFloat32, f32bits), " ", ":"))
 	case op == "jsonp.rs" && len(args) == 1:
 		d, ok := unhex(args[0])
@@ -307,6 +307,26 @@ func handle(line string) (res string) {
 			return "bad-op"
 		}
 		return rdOut(d, helpers.Json2ReadInt64, dec[int64])
+	case op == "jsonp.rfn64" && len(args) == 1:
+		d, ok := unhex(args[0])
+		if !ok {
+			return "bad-op"
+		}
+		r := rdOut(d, helpers.Json2ReadFloat64, f64bits)
+		if r == "lexerr" {
+			return "err"
+		}
+		return r
+	case op == "jsonp.rfn32" && len(args) == 1:
+		d, ok := unhex(args[0])
+		if !ok {
+			return "bad-op"
+		}
+		r := rdOut(d, helpers.Json2ReadFloat32, f32bits)
+		if r == "lexerr" {
+			return "err"
+		}
+		return r
 	case op == "jsonp.rf" && len(args) == 1:
 		d, ok := unhex(args[0])
 		if !ok {
